@@ -144,6 +144,7 @@ def plan(prop, tier, seed):
         add(['tb2', 'hyb2', 'evloop'], K=2 if q else 3, until='symnc', caches=(False,), lazies=(True, False))
         add(['hyb2_init', 'ev2_init2'], K=2, caches=(True,))
         add(['tworoutes', 'tworoutes_flat'], K=2, until=2, caches=(True,), masks='extremes', extra={'no_self': ['A', 'B', 'C', 'D']})
+        add(['lazyroutes'], K=2, until=2, caches=(True,), masks='extremes', lazies=(True, False), extra={'no_self': ['A', 'B', 'C', 'D']})
         add(['weak4'], K=2, until=2, caches=(True,), lazies=(True, False), masks='extremes', extra={'no_self': ['P', 'Q', 'R', 'D']})
         add(['sibloop', 'loopfeed'], K=2, until=2, caches=(True,), masks='extremes', extra={'no_self': ['A', 'B']})
         # remote transport in memory: real RemoteProxy / Channel / simulator-side loop, all message orders, shutdown with the stop timeout racing
